@@ -131,7 +131,7 @@ def parseSeg (s : String) : Option SourceSegment :=
   match s.splitOn ":" with
   | [fileHex, bits] =>
     (bytesOfHex fileHex).bind fun file => (openStore file).map fun sf =>
-      { store := sf, alive := aliveOf bits, hasDeletes := bits != "all" && bits.toList.any (· == '0') }
+      { store := sf, codec := Compression.none, alive := aliveOf bits, hasDeletes := bits != "all" && bits.toList.any (· == '0') }
   | _ => none
 
 def handle : List String → String
